@@ -61,10 +61,12 @@ impl EPipe {
         let filter = if g.tape.chance(1, 3) { Some(g.expr(Bool, depth, &env)) } else { None };
         let ns = g.tape.below(max_sel + 1);
         let mut selects = Vec::new();
+        let digit_names = g.tape.chance(1, 6);
         for i in 0..ns {
             let k = *g.tape.pick(LEAF_KINDS);
             let e = g.expr(k, depth, &env);
-            let name = format!("s{}", i);
+            // digits that are not the position of the selection
+            let name = if digit_names { format!("{}", (i + 1) % (max_sel + 1)) } else { format!("s{}", i) };
             selects.push((e, name.clone()));
             env.sels.push((name, k));
         }
